@@ -57,6 +57,16 @@ run("ENDDEREF", rules_types.run_endderef, {}, 15, indirs)
 run("SHIFTKEEP", rules_lin.run_shiftkeep, {}, 3)
 run("ROOMCODE", rules_path.run_roomcode, {"files": P["C03"]}, 4)
 run("ALIGNIDLE", rules_path.run_alignidle, {"files": P["C03"]}, 2)
+# round 11
+run("DEADCOPY", rules_path.run_deadcopy, {}, 100, indirs)
+run("DETACHDEAD", rules_ref.run_detachdead, {}, 10, indirs)
+run("READBASE", rules_path.run_readbase, {}, 20)
+run("MUSTCHECK", rules_effect.run_mustcheck, {}, 800, indirs)
+if any(t == "mptcore/misc/identifier.c" for t in touched):
+    from sa import rules_ident
+    run("LINIDENT", rules_lin.run_linident, {"files": ["mptcore/misc/identifier.c"]}, 18)
+    run("INLINEFIT", rules_ident.run_inlinefit, {}, 5)
+    run("IDENTOVERLAY", rules_ident.run_identoverlay, {}, 15)
 if any(t.startswith("mptcore/array/") or t in ("mpt++/array.cpp", "mptcore/array.h") for t in touched):
     run("LINBUF", rules_lin.run_linbuf, {"files": P["C04"], "only_dir": "mptcore/array/", "cxx_files": ["mpt++/array.cpp"]}, 60)
 t = os.path.basename(os.path.dirname(patch)) + "/" + os.path.basename(patch)[:-5]
